@@ -40,7 +40,8 @@ def isoAnswer (properties : Bool) (m1 m2 : MRS) : Except Err Json := do
     ("g1", jGraph g1),
     ("a1", jGraph a1),
     ("clean", Json.bool (cleanGraph g1 && cleanGraph g2)),
-    ("hyps", Json.bool (encodingHyps m1 && encodingHyps m2))])
+    ("hyps", Json.bool (encodingHyps m1 && encodingHyps m2)),
+    ("inspace", Json.bool (inSpaceb properties m1 && inSpaceb properties m2))])
 
 def handle (j : Json) : Except String Json := do
   let op ← getStr j "op"
